@@ -6,7 +6,7 @@ slow-hash keys growing through several doublings (Find of every key, bit-exact r
 number of full-hash recomputations)."""
 import os
 
-GEN = ['gen_base.json', 'gen_open2n2.json', 'gen_limp4.json', 'gen_one.json']
+GEN = ['gen_base.json', 'gen_open2n2.json', 'gen_o2mp.json', 'gen_limp4.json', 'gen_one.json']
 M64 = (1 << 64) - 1
 
 def qof(L): return (L + 6) // 8
@@ -124,6 +124,21 @@ def gen_cases(ctx, scale):
                     ops.append('g %d %d %d %d %d' % (k, bidx, L, rnd_newL(r, L), h))   # full getter returns the true hash
             # expected for every g: a value that agrees with the true hash on the known bits (checked by the oracle below)
             out.append((H, 'p4seq %d %s' % (H, ' '.join(ops)), 'seq'))
+    # ---- table level: the L1 relocation model (TableO2.migrate over generated leaves) against the real HashSet<Open2N2>
+    for i in range(60 * scale):
+        L = r.choice([0, 1, 2, 3, 4, 5, 6, 2, 3, 4]); newL = min(10, L + r.choice([1, 1, 2, 3, 7, 8]))
+        cap = int((1 << L) * 3 / 12.0 * 11.0)
+        nkeys = r.range(max(1, cap // 2), cap) if cap > 0 else 0
+        lowbits = r.choice([L, newL, max(0, L - 1), 2, 12])
+        hs = []
+        for _ in range(nkeys):
+            t = r.below(4)
+            h = rnd_hash(r, edges)
+            if t == 0: h = (h & ~((1 << 16) - 1) & M64) | r.below(1 << lowbits)          # collide in the low bits
+            elif t == 1: h = (r.below(1 << lowbits) | (r.next() << 12)) & M64
+            hs.append(h)
+        if nkeys:
+            out.append((0, 'tbl %d %d %s' % (L, newL, ' '.join(map(str, hs))), None))
     # ---- BucketOne, BucketBase, small pure functions
     for i in range(n // 6):
         h = rnd_hash(r, edges)
@@ -156,7 +171,14 @@ def set_cases(ctx, scale):
                 else: ops.append('i %d' % r.range(1, 1500))
             ops.append('r %d' % r.choice([10, 11, 17, 18, 19]))
             cs.append('set %s %d %d %d %s' % (kind, mode, param, start, ' '.join(ops)))
-    return cs
+    # BucketOne tables of fewer than 2 buckets have capacity 0 with the default load factor (MOMO_CHECK in pvAddGrow):
+    # start those at 2^3 like HashTraitsStd does; Open2N2/Open8 start at the requested size (1, 2, 4 buckets exist)
+    fixed = []
+    for c in cs:
+        w = c.split()
+        if w[1] == 'one' and int(w[4]) < 3: w[4] = '3'
+        fixed.append(' '.join(w))
+    return fixed
 
 def check_outputs(ctx, triples, lines):
     """the property predicate on the REAL code's outputs (independent of the Coq model)"""
@@ -292,7 +314,7 @@ def run(ctx):
     for c in allc[::max(1, len(allc) // 6)][:6]:
         ctx.add_sample(c[:300])
     ctx.coverage['input_distribution'] = {k: sum(1 for c in allc if c.startswith(k)) for k in
-                                          ('o2add', 'o2rem', 'o2get', 'p4set', 'p4rem', 'p4get', 'p4seq', 'one', 'start', 'next', 'short', 'set')}
+                                          ('o2add', 'o2rem', 'o2get', 'p4set', 'p4rem', 'p4get', 'p4seq', 'tbl', 'one', 'start', 'next', 'short', 'set')}
     return ctx.finish(rule=RULE)
 
 RULE = ('cases = random + boundary (h: 0,1,2^k-1,2^k,2^k+1, bytes of ones/zeros at every position, all-ones; L: 0..57 aimed at the '
